@@ -480,7 +480,7 @@ type headerEv struct {
 
 func init() {
 	drivers["codec-shapes"] = func(a *Args) {
-		cc := Conc{a.Rand()}
+		cc := Conc{r: a.Rand()}
 		t := NewTracer(a.Out)
 		b := 0
 		type fam struct {
